@@ -76,7 +76,10 @@ type workItem struct {
 type pool struct {
 	mu        sync.Mutex
 	cond      *sync.Cond
-	stack     []workItem
+	stacks    map[*instResult][]workItem // one LIFO stack of decision prefixes per instance
+	ring      []*instResult              // round robin over the instances: small ones finish early, exploding ones share the rest
+	rr        int
+	pending   int
 	active    int
 	stop      bool
 	budgetHit bool
@@ -84,7 +87,14 @@ type pool struct {
 
 func (p *pool) push(w workItem) {
 	p.mu.Lock()
-	p.stack = append(p.stack, w)
+	if p.stacks == nil {
+		p.stacks = map[*instResult][]workItem{}
+	}
+	if _, ok := p.stacks[w.ir]; !ok {
+		p.ring = append(p.ring, w.ir)
+	}
+	p.stacks[w.ir] = append(p.stacks[w.ir], w)
+	p.pending++
 	p.mu.Unlock()
 	p.cond.Signal()
 }
@@ -92,17 +102,27 @@ func (p *pool) push(w workItem) {
 func (p *pool) pop() (workItem, bool) {
 	p.mu.Lock()
 	defer p.mu.Unlock()
-	for len(p.stack) == 0 && p.active > 0 && !p.stop {
+	for p.pending == 0 && p.active > 0 && !p.stop {
 		p.cond.Wait()
 	}
-	if len(p.stack) == 0 || p.stop {
+	if p.pending == 0 || p.stop {
 		p.cond.Broadcast()
 		return workItem{}, false
 	}
-	w := p.stack[len(p.stack)-1]
-	p.stack = p.stack[:len(p.stack)-1]
-	p.active++
-	return w, true
+	for i := 0; i < len(p.ring); i++ {
+		ir := p.ring[(p.rr+i)%len(p.ring)]
+		st := p.stacks[ir]
+		if len(st) == 0 {
+			continue
+		}
+		w := st[len(st)-1]
+		p.stacks[ir] = st[:len(st)-1]
+		p.rr = (p.rr + i + 1) % len(p.ring)
+		p.pending--
+		p.active++
+		return w, true
+	}
+	return workItem{}, false
 }
 
 func (p *pool) done() {
@@ -150,9 +170,8 @@ func explore(l *loaded, insts []Inst, opt options) ([]*instResult, runStats, err
 		ir := &instResult{Inst: in, fn: fn, ByKind: map[string]int{}, Covers: map[string]int{}}
 		results = append(results, ir)
 	}
-	// push in reverse so that the first instance is popped first
-	for i := len(results) - 1; i >= 0; i-- {
-		p.stack = append(p.stack, workItem{ir: results[i]})
+	for _, r := range results {
+		p.push(workItem{ir: r})
 	}
 	stats := runStats{Funcs: map[string]bool{}, Stubs: map[string]bool{}}
 	var smu sync.Mutex
@@ -192,7 +211,7 @@ func explore(l *loaded, insts []Inst, opt options) ([]*instResult, runStats, err
 						r.mu.Unlock()
 					}
 					p.mu.Lock()
-					q := len(p.stack)
+					q := p.pending
 					p.mu.Unlock()
 					fmt.Fprintf(os.Stderr, "progress: %d paths, queue %d, big: %v\n", tot, q, big)
 				}
@@ -270,9 +289,21 @@ func explore(l *loaded, insts []Inst, opt options) ([]*instResult, runStats, err
 					}
 					if out.Kind != "unsupported" && out.Kind != "engine-error" && matchFinding(opt.known, opt.prop, ir.Inst, out) == nil {
 						smu.Lock()
+						first := len(distinct) == 0
 						distinct[sig(ir.Inst, out)] = true
 						many := len(distinct) >= 40
 						smu.Unlock()
+						if first {
+							// a counterexample exists: the verdict is settled, give the rest of the
+							// exploration a grace period only (more counterexamples help triage)
+							go func() {
+								time.Sleep(90 * time.Second)
+								p.mu.Lock()
+								p.stop = true
+								p.mu.Unlock()
+								p.cond.Broadcast()
+							}()
+						}
 						if many {
 							// enough distinct counterexamples: no point in exploring the rest
 							p.mu.Lock()
